@@ -163,6 +163,15 @@ def run_group(comp, g, meta, workdir, tier, backend=None, secondary=False):
     t0 = time.time()
     res = {'group': g.name, 'component': comp.name, 'enforce': g.enforce, 'replace': g.replace, 'level': g.level,
            'backend': backend or g.backend, 'obligations': [], 'infra': None, 'solver_s': 0.0, 'secondary': secondary}
+    if g.native:
+        import native_checks
+        try:
+            res['obligations'] = native_checks.run(g.native, tier, int(os.environ.get('VERIF_SEED', '0') or 0))
+        except Exception as ex:
+            res['infra'] = 'native check failed to run: %r' % ex
+        res['solver_s'] = time.time() - t0
+        res['backend'] = 'native'
+        return res
     try:
         hname, hpath = write_harness(comp, g, meta, workdir, '_2' if secondary else '')
     except Infra as ex:
@@ -341,7 +350,7 @@ def main():
             futs = []
             for c, g in todo:
                 futs.append(ex.submit(run_group, c, g, metas[c.name], os.path.join(workdir, c.name), a.tier))
-                if a.tier == 'thorough' and g.level == 'proof':
+                if a.tier == 'thorough' and g.level == 'proof' and not g.native:
                     second = {'sat': 'kissat', 'cvc5': 'sat', 'kissat': 'sat'}.get(g.backend, 'kissat')
                     futs.append(ex.submit(run_group, c, g, metas[c.name], os.path.join(workdir, c.name), a.tier, second, True))
             for f in futs:
